@@ -439,10 +439,17 @@ inductive SOp where
   /-- a new library object (`DOELibraryFactory().create(…)`) -/
   | newLib
 
+instance decEqResult : DecidableEq (Except Fail Matrix)
+  | .ok a, .ok b => if h : a = b then isTrue (by rw [h]) else isFalse (fun e => by cases e; exact h rfl)
+  | .error a, .error b => if h : a = b then isTrue (by rw [h]) else isFalse (fun e => by cases e; exact h rfl)
+  | .ok _, .error _ => isFalse (fun e => by cases e)
+  | .error _, .ok _ => isFalse (fun e => by cases e)
+
 inductive SOut where
   | none
   | vec (x : List Rat)
   | doe (res : Except Fail Matrix)
+  deriving DecidableEq
 
 /-- The objects of a session, as they exist in the code … -/
 structure Session where
